@@ -2,7 +2,7 @@
    [wf u]: both words are 64-bit. uval / sval: the value read as Uint128 / Int128. A finite float64 is FFin sign m e = +-m * 2^e
    with 0 <= m < 2^53; [fval_trunc] is its truncation toward zero. *)
 From Coq Require Import ZArith List Bool.
-From Verif Require Import common.Word64 C01.Model C04.Model C02.Model C02.Proofs.
+From Verif Require Import common.Word64 C01.Model C04.Model C02.Model C02.Proofs C02.ProofsUlp.
 Import ListNotations.
 Open Scope Z_scope.
 
@@ -37,12 +37,30 @@ Theorem C02_FromFloat64_specials :
 Proof. exact FromFloat64_specials. Qed.
 Print Assumptions C02_FromFloat64_specials.
 
-(* AsFloat64 below 2^53: exactly the value, never a negative zero. (Beyond 2^53 the one-unit-in-the-last-place bound is decided by
-   the driver's oracle on every run, not proved: partial.) *)
-Theorem C02_AsFloat64_exact_below_2_53_partial : forall u, wf u ->
+(* AsFloat64 below 2^53: exactly the value, never a negative zero *)
+Theorem C02_AsFloat64_exact_below_2_53 : forall u, wf u ->
   (uval u < 2 ^ 53 -> UAsFloat64 u = (false, uval u)) /\ (- 2 ^ 53 < sval u < 2 ^ 53 -> IAsFloat64 u = (false, sval u) \/ (sval u < 0 /\ IAsFloat64 u = (true, sval u))).
 Proof. exact AsFloat64_exact_below_2_53. Qed.
-Print Assumptions C02_AsFloat64_exact_below_2_53_partial.
+Print Assumptions C02_AsFloat64_exact_below_2_53.
+(* AsFloat64 from 2^53 on (ProofsUlp.v): the three roundings (float64 of each word - nearest, ties to even - and the float64 sum)
+   stay within one unit in the last place of the value, 2^(log2 |v| - 52), and the result has the value's sign. For Uint128 the
+   error is strictly less than one unit; for negative Int128 values the code converts the one's complement, so "at most one unit"
+   is the best that holds (witness below) *)
+Theorem C02_Uint128_AsFloat64_within_one_ulp : forall u, wf u -> 9007199254740992 <= uval u ->
+  fst (UAsFloat64 u) = false /\ Z.abs (snd (UAsFloat64 u) - uval u) < 2 ^ (Z.log2 (uval u) - 52).
+Proof. exact UAsFloat64_within_one_ulp. Qed.
+Print Assumptions C02_Uint128_AsFloat64_within_one_ulp.
+Theorem C02_Int128_AsFloat64_within_one_ulp_with_the_sign : forall i, wf i -> 9007199254740992 <= Z.abs (sval i) ->
+  fst (IAsFloat64 i) = (sval i <? 0) /\
+  Z.abs (snd (IAsFloat64 i) - sval i) <= 2 ^ (Z.log2 (Z.abs (sval i)) - 52) /\
+  (sval i < 0 -> snd (IAsFloat64 i) < 0) /\ (0 < sval i -> 0 < snd (IAsFloat64 i)).
+Proof. exact IAsFloat64_within_one_ulp. Qed.
+Print Assumptions C02_Int128_AsFloat64_within_one_ulp_with_the_sign.
+(* the bound is attained: -(2^53+2) * 2^64 converts to -2^117, exactly one unit (2^65) away *)
+Example C02_ex_one_full_ulp : let i := mk (18446744073709551616 - (9007199254740992 + 2)) 0 in
+  sval i = - ((9007199254740992 + 2) * 18446744073709551616) /\ IAsFloat64 i = (true, - 2 ^ 117) /\
+  Z.abs (snd (IAsFloat64 i) - sval i) = 2 ^ (Z.log2 (Z.abs (sval i)) - 52).
+Proof. vm_compute. repeat split. Qed.
 
 (* narrowing predicates are true exactly when the matching conversion preserves the value *)
 Theorem C02_narrowing : forall u, wf u ->
